@@ -536,7 +536,7 @@ func (x *Exec) doRun(op Op) (*StepRecord, error) {
 	}
 	req := &proto.RunReq{Root: x.Root, Cwd: cwd, Args: run.Args, Gens: run.Gens, Sched: run.Sched, Faults: run.Faults, ReadSum: run.Args.All, RetrySameExecutor: run.RetrySameExecutor,
 		FirstGlobals: run.FirstGlobals, HasFirstGlobals: run.HasFirstGlobals, FirstGens: run.FirstGens, SecondContext: second,
-		KeepExecutor: run.KeepExecutor, ReuseExecutor: run.ReuseExecutor}
+		KeepExecutor: run.KeepExecutor, ReuseExecutor: run.ReuseExecutor, ViaRegistry: run.ViaRegistry}
 	for i := range req.Faults {
 		if req.Faults[i].Kind != "" {
 			req.Faults[i].ExecSeq = -1
